@@ -22,8 +22,8 @@ class Encoder:
         self.aead = ChaCha20Poly1305(key)
         self.counter = 0
 
-    def frame(self, plaintext: bytes) -> bytes:
-        assert 0 < len(plaintext) <= MAX_FRAME
+    def frame(self, plaintext: bytes, allow_empty: bool = False) -> bytes:
+        assert (0 if allow_empty else 1) <= len(plaintext) <= MAX_FRAME
         aad = struct.pack("<H", len(plaintext))
         out = aad + self.aead.encrypt(nonce(self.counter), bytes(plaintext), aad)
         self.counter += 1
